@@ -16,7 +16,7 @@ pub const N_CONN: usize = 2;
 static mut TICK: u32 = 0;
 static mut N_CONNECT: u32 = 0;
 static mut T_CONNECT: u32 = 0;
-static mut CONNECT_ID: u8 = 255;
+static mut CONNECT_ID: usize = 255;
 static mut N_ON_CONNECT: u32 = 0;
 static mut T_ON_CONNECT: u32 = 0;
 static mut N_ON_ERROR: u32 = 0;
@@ -25,7 +25,7 @@ static mut N_ON_FINISH: u32 = 0;
 static mut N_COPY: u32 = 0;
 static mut T_COPY: u32 = 0;
 static mut N_EVAL: u32 = 0;
-static mut RECORDED: u8 = 255;
+static mut RECORDED: usize = 255;
 static mut N_SET_CONNECTOR: u32 = 0;
 static mut LAST_STATE: u8 = 0;
 // environment (fixed before the call)
@@ -48,17 +48,17 @@ pub enum Feature { TcpForward, UdpForward }
 pub enum ContextState { ServerConnecting, Terminated }
 
 /// `Arc<T>` as a borrowed wrapper (no heap)
-pub struct Arc<T: 'static>(pub &'static T);
+pub struct Arc<T>(pub *const T);
 impl<T> Clone for Arc<T> { fn clone(&self) -> Self { Arc(self.0) } }
-impl<T> std::ops::Deref for Arc<T> { type Target = T; fn deref(&self) -> &T { self.0 } }
+impl<T> std::ops::Deref for Arc<T> { type Target = T; fn deref(&self) -> &T { unsafe { &*self.0 } } }
 
 #[derive(Clone, Copy)]
-pub struct Name(u8);
+pub struct Name(usize);
 impl Name { pub fn to_owned(&self) -> Name { *self } }
 
 /// stands for Arc<dyn Connector>
 #[derive(Clone, Copy)]
-pub struct ConnRef { pub id: u8 }
+pub struct ConnRef { pub id: usize }
 impl ConnRef {
     pub fn has_feature(&self, _f: Feature) -> bool { unsafe { FEATURE_OK[self.id as usize] } }
     pub fn name(&self) -> Name { Name(self.id) }
@@ -119,39 +119,40 @@ pub async fn copy_bidi(_ctx: ContextRef, _p: &IoParams) -> Result<(), Error> {
 include!("process_request.in.rs");
 
 // ---------------------------------------------------------------- harness
-static mut RULES: [Rule; MAX_RULES] = [
-    Rule { target: None, matches: false }, Rule { target: None, matches: false },
-    Rule { target: None, matches: false }, Rule { target: None, matches: false },
-];
-static mut STATE: Option<GlobalState> = None;
+#[cfg(kani)]
+fn any_rule() -> Rule {
+    let has_target: bool = kani::any();
+    let id: usize = kani::any();
+    kani::assume(id < N_CONN);
+    Rule { target: if has_target { Some(ConnRef { id }) } else { None }, matches: kani::any() }
+}
 
+// NOTE (Kani 0.68): the rule storage must be indexed directly (`&store[i]`); taking `&store` first and indexing
+// through that reference made CBMC read garbage through the raw pointer (spurious counterexample, refuted natively).
 #[cfg(kani)]
 fn run(bound: usize) {
+    let store = [any_rule(), any_rule(), any_rule(), any_rule()];
     let n: usize = kani::any();
     kani::assume(n <= bound);
     unsafe {
-        for i in 0..MAX_RULES {
-            let has_target: bool = kani::any();
-            let id: u8 = kani::any();
-            kani::assume((id as usize) < N_CONN);
-            RULES[i] = Rule { target: if has_target { Some(ConnRef { id }) } else { None }, matches: kani::any() };
-        }
         for c in 0..N_CONN { FEATURE_OK[c] = kani::any(); }
         CONNECT_OK = kani::any();
         COPY_OK = kani::any();
         CTX.props.request_feature = if kani::any() { Feature::TcpForward } else { Feature::UdpForward };
-        STATE = Some(GlobalState { rules: [Arc(&RULES[0]), Arc(&RULES[1]), Arc(&RULES[2]), Arc(&RULES[3])], n, io_params: IoParams });
-        let state: Arc<GlobalState> = Arc(STATE.as_ref().unwrap());
+    }
+    let state_store = GlobalState { rules: [Arc(&store[0]), Arc(&store[1]), Arc(&store[2]), Arc(&store[3])], n, io_params: IoParams };
+    unsafe {
+        let state: Arc<GlobalState> = Arc(&state_store);
         kani::block_on(process_request(ContextRef, state));
 
         // ---- expected decision, computed from the PROPERTY statement: first rule, in order, whose filter is true
         let mut first: Option<usize> = None;
         let mut i = 0;
         while i < MAX_RULES {
-            if i < n && first.is_none() && RULES[i].matches { first = Some(i); }
+            if i < n && first.is_none() && store[i].matches { first = Some(i); }
             i += 1;
         }
-        let chosen: Option<ConnRef> = match first { Some(i) => RULES[i].target, None => None };
+        let chosen: Option<ConnRef> = match first { Some(i) => store[i].target, None => None };
         let allowed = match chosen { Some(c) => FEATURE_OK[c.id as usize], None => false };
 
         // C02 (i) the upstream connected to is the one named by the first matching rule, at most once
@@ -187,6 +188,11 @@ fn run(bound: usize) {
 #[cfg(kani)]
 #[kani::proof]
 #[kani::unwind(5)]
+fn process_request_le2() { run(2) }
+
+#[cfg(kani)]
+#[kani::proof]
+#[kani::unwind(5)]
 fn process_request_le3() { run(3) }
 
 #[cfg(kani)]
@@ -199,7 +205,7 @@ fn process_request_le4() { run(4) }
 #[kani::proof]
 #[kani::unwind(5)]
 fn process_request_cover() {
-    run(2);
+    run(1);
     unsafe { kani::cover!(N_ON_FINISH == 1); kani::cover!(N_ON_ERROR == 1 && N_CONNECT == 0); kani::cover!(N_ON_ERROR == 1 && N_ON_CONNECT == 1); }
 }
 
